@@ -452,6 +452,8 @@ def orc_c12(ctx, op, req, impl, model, spec):
         if flip[d["cmp"]] != d["rcmp"]:
             return "ordering is not antisymmetric"
         return None
+    if op == "subeq":
+        return orc_subeq(ctx, op, req, impl, model, spec)
     if op == "eqstr":
         # `ok <li == s> <li.language == s> str=<to_string> lang=<language text>`
         f = impl.split(" ")
@@ -498,9 +500,21 @@ def orc_c13(ctx, op, req, impl, model, spec):
     return None
 
 
+def orc_subeq(ctx, op, req, impl, model, spec):
+    if op != "subeq" or not impl.startswith("ok "):
+        return None
+    other = R.unhex(req.split(" ")[3])
+    txt = get_kv(impl, "txt")
+    if (impl.split(" ")[1] == "1") != (unesc(txt) == other):
+        return "subtag == %r is %s but the subtag's text is %s" % (other, impl.split(" ")[1], txt)
+    return None
+
+
 def orc_c15(ctx, op, req, impl, model, spec):
     if impl in ("notutf8",):
         return None
+    if op == "subeq":
+        return orc_subeq(ctx, op, req, impl, model, spec)
     if op == "langdefault":
         if impl != "ok und;und;1;1;rt=1 | ok und;und;1;1;rt=1":
             return "default()/clear() is not the empty language"
@@ -753,8 +767,8 @@ PROPS = {
     "C02": Prop("C02", S(["tokens", "wf", "near", "raw"], "li,lican,listr") + [("glue_li", None)],
                 {"li", "lican", "listr", "liiter", "liiterp"}, proj_c02, orc_c02,
                 design_ref="4/C02"),
-    "C03": Prop("C03", S(["tokens", "wf", "near", "raw"], "loc,locstr,ext") + [("glue_misc", None)],
-                {"loc", "locstr", "ext", "exttype"}, proj_c03, orc_c03,
+    "C03": Prop("C03", S(["tokens", "wf", "near", "raw"], "loc,locstr,ext,substr ext") + [("glue_misc", None)],
+                {"loc", "locstr", "ext", "exttype", "substr"}, proj_c03, orc_c03,
                 design_ref="4/C03"),
     "C04": Prop("C04", S(["wf", "near"], "li,lican,loc,loccan") + S(["tokens"], "loc,loccan") + [("hist", None), ("parts", None)],
                 {"li", "lican", "loc", "loccan", "hist", "fromparts"}, proj_str_only, orc_c04, design_ref="4/C04"),
@@ -769,7 +783,7 @@ PROPS = {
     "C09": Prop("C09", [("pairs", None)], {"pair"}, proj_pair, orc_c09, design_ref="4/C09"),
     "C10": Prop("C10", [("hist", None)], {"hist"}, proj_c10, orc_c10, design_ref="4/C10"),
     "C11": Prop("C11", [("match", None)], {"match", "locmatch", "langmatch", "matchx", "locmatchx"}, proj_full, orc_c11, design_ref="4/C11"),
-    "C12": Prop("C12", [("rel", None)], {"rel", "eqstr"}, proj_full, orc_c12, design_ref="4/C12"),
+    "C12": Prop("C12", [("rel", None), ("glue_misc", None)], {"rel", "eqstr", "subeq"}, proj_full, orc_c12, design_ref="4/C12"),
     "C13": Prop("C13", S(["tokens"], "conv") + S(["wf", "near", "raw"], "conv,convx"), {"conv", "convx"}, proj_c13, orc_c13,
                 design_ref="4/C13"),
     "C14": Prop("C14", [("layoutnames", None)] + S(["triples"], "dir"), {"dir", "locdir"}, proj_full, orc_c14, design_ref="4/C14",
@@ -786,8 +800,9 @@ PROPS = {
                 thorough_configs=[("none", ()), ("likely", ("likely",)), ("serde", ("serde",)), ("macros", ("macros",)),
                                   ("likely-serde", ("likely", "serde")), ("likely-macros", ("likely", "macros")),
                                   ("macros-serde", ("macros", "serde")), ("all", ALL_FEATURES)]),
-    "C15": Prop("C15", S(["subtag"], "lang,script,region,variant,langstr") + [("langmisc", None), ("glue_misc", None)],
-                {"lang", "script", "region", "variant", "langstr", "langopt", "langdefault", "rawref"}, proj_c15, orc_c15,
+    "C15": Prop("C15", S(["subtag"], "lang,script,region,variant,langstr,substr script,substr region,substr variant")
+                + [("langmisc", None), ("glue_misc", None)],
+                {"lang", "script", "region", "variant", "langstr", "langopt", "langdefault", "rawref", "subeq", "substr"}, proj_c15, orc_c15,
                 design_ref="4/C15"),
     "C17": Prop("C17", [("parts", None), ("glue_misc", None), ("hist", None)], {"liparts", "locparts", "fromparts", "raw", "rawref", "hist"}, proj_c17, orc_c17,
                 design_ref="4/C17"),
@@ -862,6 +877,16 @@ def extra_stream(name, tier, seed):
         for w in words:
             for o in (w, w.lower(), w.upper(), b"other", b""):
                 lines.append("rawref variant %s %s" % (R.hexs(w), R.hexs(o)))
+        # a subtag compared with strings around its own text: other case, prefix, extension, neighbours
+        for kind in ("lang", "script", "region", "variant"):
+            for w in words:
+                try:
+                    w.decode("utf-8")
+                except Exception:
+                    continue
+                others = {w, w.lower(), w.upper(), w.title(), w[:-1], w + b"a", w + b"-", b"-" + w, b"", b"und", b"UND", b"Und"}
+                for o in sorted(others):
+                    lines.append("subeq %s %s %s" % (kind, R.hexs(w), R.hexs(o)))
         return lines
     raise KeyError(name)
 
